@@ -370,3 +370,116 @@ def run(ctx):
     from .lib import immut
     r6 = ctx.rule('R09.6', 'values are immutable after construction (no Rc cycles can be formed) — shared audit R15.1')
     immut.audit(ctx, r6)
+
+    # ---------------- R09.9 the size of a big integer is counted in bytes
+    big_integer_units(ctx)
+
+
+def big_integer_units(ctx):
+    """R09.9: unit analysis of the byte counts derived from a big integer's magnitude (LazyBigint::additional_size, the size
+    model of Int values, and ProspectiveSize for LazyBigint, the pre-flight estimate).  The sources have units -- bits(),
+    64-bit digits (iter_u64_digits().count()), 32-bit digits, bytes (size_of, to_bytes_*().len()) -- and the conversions are
+    x8 / x4 (digits -> bytes), /8 (bits -> bytes), /64 and /32 (bits -> digits).  What the function returns must be bytes."""
+    mir = ctx.mir
+    r9 = ctx.rule('R09.9', 'byte counts derived from a big integer are in bytes (unit analysis: bits, 64-bit digits, bytes)')
+    targets = [b for b in mir.bodies if b.nid == 'util::lazy_bigint::LazyBigint::additional_size'
+               or (b.nid.endswith('::prospective_size') and 'LazyBigint' in (b.get('impl_self') or b.id))]
+    if not any(b.nid.endswith('additional_size') for b in targets):
+        r9.fail('anchor/additional_size', 'src/util/lazy_bigint.rs', 'LazyBigint::additional_size not found')
+
+    def const_int(op):
+        c = op.get('const') if isinstance(op, dict) else None
+        return int(c['int']) if c and 'int' in c and c['int'].lstrip('-').isdigit() else None
+    for b in targets:
+        memo = {}
+
+        def unit_op(op):
+            if 'const' in op:
+                return 'const'
+            p = op_place(op)
+            return unit(p['l']) if p is not None else 'unknown'
+
+        def unit(l, depth=0):
+            if l in memo:
+                return memo[l]
+            memo[l] = 'unknown'
+            us = set()
+            for kind, dbb, idx, d in b.defs().get(l, []):
+                if kind == 'call':
+                    nm = strip_generics(d.get('callee') or d.get('decl') or '')
+                    last = nm.split('::')[-1]
+                    if last == 'count':
+                        src_calls = set()
+                        rl = op_local(d['args'][0]) if d['args'] else None
+                        for x in (mirq.backslice(b, [rl]) if rl is not None else ()):
+                            for k2, b2, i2, d2 in b.defs().get(x, []):
+                                if k2 == 'call':
+                                    src_calls.add(strip_generics(d2.get('callee') or '').split('::')[-1])
+                        us.add('digits64' if 'iter_u64_digits' in src_calls else 'digits32' if 'iter_u32_digits' in src_calls else 'unknown')
+                    elif last == 'bits':
+                        us.add('bits')
+                    elif last in ('size_of', 'size_of_val'):
+                        us.add('bytes')
+                    elif last == 'len' and any('to_bytes' in strip_generics(d2.get('callee') or '') for x in mirq.backslice(b, [op_local(d['args'][0])] if d['args'] and op_local(d['args'][0]) is not None else []) for k2, b2, i2, d2 in b.defs().get(x, []) if k2 == 'call'):
+                        us.add('bytes')
+                    elif last in ('div_ceil', 'div_floor', 'div', 'checked_div', 'div_euclid') and len(d['args']) == 2:
+                        us.add(divide(unit_op(d['args'][0]), const_int(d['args'][1])))
+                    elif last in ('to_usize', 'unwrap', 'unwrap_or', 'unwrap_or_default', 'try_into', 'try_from', 'from', 'into', 'expect', 'clone', 'saturating_add', 'max', 'min') and d['args']:
+                        us.add(unit_op(d['args'][0]))
+                    else:
+                        us.add('unknown')
+                    continue
+                rv = d['rv']
+                if rv['k'] in ('use', 'cast'):
+                    us.add(unit_op(rv['op']))
+                elif rv['k'] in ('bin', 'checkedbin'):
+                    ua, ub = unit_op(rv['a']), unit_op(rv['b'])
+                    op = rv['op'].replace('WithOverflow', '').replace('Unchecked', '')
+                    if op == 'Mul':
+                        c = const_int(rv['b']) if ub == 'const' else const_int(rv['a']) if ua == 'const' else None
+                        x = ua if ub == 'const' else ub
+                        us.add({('digits64', 8): 'bytes', ('digits32', 4): 'bytes'}.get((x, c), x if x in ('bytes', 'bits') else 'unknown' if c is None else '%s x %d' % (x, c)))
+                    elif op in ('Div', 'Shr'):
+                        c = const_int(rv['b'])
+                        if op == 'Shr' and c is not None:
+                            c = 1 << c
+                        us.add(divide(ua, c))
+                    elif op in ('Add', 'Sub'):
+                        if ua == 'const':
+                            us.add(ub)
+                        elif ub == 'const':
+                            us.add(ua)
+                        else:
+                            us.add(ua if ua == ub else 'mixed(%s, %s)' % (ua, ub))
+                    else:
+                        us.add('unknown')
+                elif rv['k'] == 'copyderef' or rv['k'] == 'ref':
+                    us.add(unit(rv['place']['l']))
+                else:
+                    us.add('unknown')
+            # a local written through a projection (checked-arithmetic tuples are read back as `.0`)
+            if not us:
+                us.add('unknown')
+            memo[l] = next(iter(us)) if len(us) == 1 else 'mixed(%s)' % ', '.join(sorted(us))
+            return memo[l]
+
+        def divide(u, c):
+            return {('bits', 8): 'bytes', ('bits', 64): 'digits64', ('bits', 32): 'digits32'}.get((u, c), '%s / %s' % (u, c))
+        rets = set()
+        for i, j, s in b.stmts():
+            if s['k'] == 'assign' and s['place']['l'] == 0 and not s['place']['p']:
+                rv = s['rv']
+                if rv['k'] in ('use', 'cast'):
+                    rets.add(unit_op(rv['op']))
+                else:
+                    memo.pop(0, None)
+                    rets.add(unit(0))
+        for kind, dbb, idx, d in b.defs().get(0, []):
+            if kind == 'call':
+                memo.pop(0, None)
+                rets.add(unit(0))
+        ok = bool(rets) and rets <= {'bytes', 'const'}
+        r9.inst({'fn': b.nid, 'returns': sorted(rets)}, ok=ok, kind=b.id)
+        if not ok:
+            r9.fail('%s/unit' % b.nid, mirq.site(b, 0), 'a byte count is computed in the wrong unit: the function returns %s where bytes are expected (64-bit digits need x8, bits need /8): big integers are accounted for a fraction of their payload, so the size limit is not enforced for them' % sorted(rets - {'bytes', 'const'}))
+    r9.need(2)
